@@ -253,6 +253,9 @@ def cvc5_check(assertions, timeout_ms=60000):
 
 
 # ---------------------------------------------------------------- SInt
+_ORIGIN = {}     # z3 ast id -> (term, (table, index), possible-ones mask): lets table look-ups survive a trip through SBytes
+
+
 class SInt:
     """non-negative int < 2**w as a w-bit bit-vector; pm = mask of bits that may be 1"""
     __slots__ = ("e", "w", "pm", "origin")
@@ -262,6 +265,13 @@ class SInt:
         self.w = e.size() if w is None else w
         assert self.e.size() == self.w, (self.e.size(), self.w)
         self.pm = ((1 << self.w) - 1) if pm is None else pm
+        if origin is None:
+            o = _ORIGIN.get(e.get_id())
+            if o is not None:
+                origin = o[1]
+                self.pm &= o[2]
+        else:
+            _ORIGIN[e.get_id()] = (e, origin, self.pm)     # keeps the term alive: ids stay unique
         self.origin = origin
 
     @staticmethod
@@ -474,18 +484,33 @@ for _n in ("lt", "le", "gt", "ge", "eq", "ne"):
 # ---------------------------------------------------------------- tables
 class STable:
     """constant table of non-negative ints (taken from the real module at run time), indexable by SInt.
-    Bitwise-linear tables become wiring.  Inverse pairs registered with fuse() cancel."""
+    Bitwise-linear tables become wiring.  A look-up whose index is itself a table look-up is composed
+    concretely (T2[T1[x]] -> (T2 o T1)[x]); a composition that is the identity cancels."""
+    _interned = {}
 
-    def __init__(self, values, name, pad=True):
-        self.values = list(values)
+    def __new__(cls, values, name="table", ow=None):
+        values = list(values)
+        key = (tuple(values), ow)
+        t = cls._interned.get(key)
+        if t is None:
+            t = object.__new__(cls)
+            t._init(values, name, ow)
+            cls._interned[key] = t
+        return t
+
+    def __init__(self, values, name="table", ow=None):
+        pass
+
+    def _init(self, values, name, ow):
+        self.values = values
         self.name = name
         self.n = len(self.values)
         self.iw = _bl(self.n - 1)
-        self.ow = max(_bl(v) for v in self.values)
-        self.inverse_of = None
+        self.ow = max(max(_bl(v) for v in self.values), ow or 1)
         full = self.n == 1 << self.iw
         self.linear = full and self.values[0] == 0 and all(
             self.values[i] == self._lin(i) for i in range(self.n))
+        self.identity = all(v == i for i, v in enumerate(self.values))
         self.arr = None
         self.opm = 0
         for v in self.values:
@@ -512,6 +537,10 @@ class STable:
     def __iter__(self):
         return iter(self.values)
 
+    def map(self, f, name=None, ow=None):
+        """derived table  k -> f(values[k])"""
+        return STable([f(v) for v in self.values], name or (self.name + "'"), ow or self.ow)
+
     def __getitem__(self, i):
         if isinstance(i, slice):
             return self.values[i]
@@ -522,17 +551,20 @@ class STable:
         c = i.concrete()
         if c is not None:
             return self.values[c]
+        if i.origin is not None:
+            T, j = i.origin
+            if all(v < self.n for v in T.values):
+                C = STable([self.values[v] for v in T.values], self.name + "o" + T.name, self.ow)
+                if C.identity:
+                    return j
+                return C[j]
         if i.w > self.iw:
-            # index must be provably in range
-            if i.pm >> self.iw:
-                raise Unsupported("table %s index wider than table" % self.name)
+            if i.pm >> self.iw and not _forced(z3.ULT(i.e, z3.BitVecVal(self.n, i.w))):
+                raise Unsupported("table %s index may exceed the table" % self.name)
             i = i.trunc(self.iw)
-        if self.n != 1 << self.iw:
-            # partial table: index must be provably < n on this path
+        elif self.n != 1 << self.iw:
             if not _forced(z3.ULT(i.ext(self.iw + 1), z3.BitVecVal(self.n, self.iw + 1))):
                 raise Unsupported("table %s index may be out of range" % self.name)
-        if self.inverse_of is not None and i.origin is not None and i.origin[0] is self.inverse_of:
-            return i.origin[1]
         idx = i.ext(self.iw)
         if self.linear:
             r = z3.BitVecVal(0, self.ow)
@@ -558,12 +590,8 @@ def _forced(e):
 
 
 def fuse(enc, dec):
-    """declare dec[enc[x]] == x after proving it for every index of enc (finite, concrete check)"""
-    ok = all(dec.values[enc.values[i]] == i for i in range(enc.n) if enc.values[i] < dec.n)
-    ok = ok and all(enc.values[i] < dec.n for i in range(enc.n))
-    if ok:
-        dec.inverse_of = enc
-    return ok
+    """check that dec o enc is the identity on enc's domain (composition in STable.__getitem__ then cancels)"""
+    return all(v < dec.n for v in enc.values) and all(dec.values[enc.values[i]] == i for i in range(enc.n))
 
 
 # ---------------------------------------------------------------- ZInt
